@@ -170,19 +170,13 @@ def c07c(tree, ob):
     else:
         ob.site(FORMATS, fv.func, 'verify_sized_item raises VerifyError on mismatch')
     # the only way to skip the comparison is an absent length; an empty item must still be compared
-    for r in [x for x in walk_local(fv.func) if isinstance(x, ast.Return)]:
-        cond = fv.cfg.node_of(r)
-        facts = fv.facts(r) or frozenset()
-        guards = [n for n in fv.cfg.nodes if n.kind == 'cond' and fv.cfg.must_pass(fv.cfg.entry, cond, {n})[0]]
-        atoms = set()
-        for g in guards:
-            atoms |= {t for (t, p) in norm.all_atoms(g.ast)}
-        extra = sorted(a for a in atoms if a != 'length is None')
-        if extra:
-            ob.violate(FORMATS, 'verify_sized_item', 'early return under ' + ' / '.join(extra), 'the length check is skipped for a reason other than "no length field": with an empty item a message cut '
-                       'right after its length field is taken as complete', r)
+    # (every normal way out of the function either knows "length is None" or that the two lengths were compared equal)
+    for (pred, _label, facts) in fv.exit_facts():
+        if ('length is None', True) in facts or ('read_len == item_len', True) in facts:
+            ob.site(FORMATS, pred.ast or fv.func, 'returns only with an absent length or after the lengths compared equal')
         else:
-            ob.site(FORMATS, r, 'comparison skipped only when the length is absent')
+            ob.violate(FORMATS, 'verify_sized_item', 'return without comparison at ' + pred.text()[:60], 'the length check is skipped for a reason other than "no length field": with an empty item a message cut '
+                       'right after its length field is taken as complete', pred.ast or fv.func)
     # a length-governed text field keeps its internal value as octets, so that the computed length counts octets
     cls = tree.klass(FORMATS, 'StrLenFieldUtf8')
     meths = {m.name: m for m in cls.body if isinstance(m, ast.FunctionDef)}
